@@ -579,6 +579,61 @@ impl E1Oracle for C02Oracle {
     }
 }
 
+/// the query names embedded in a graph with hundreds of other nodes: the same queries, the same expected answers, but
+/// every size-dependent branch of a query (fast paths chosen by the ratio of requested names to nodes) is on the other
+/// side.  Nodes a, b, c carry loops, a mutual pair, parallel edges (multi kinds) and edges into the filler nodes.
+const WIDE_FILLERS: usize = 300;
+fn wide_graph(directed: bool, multi: bool, late: bool) -> G {
+    let base = if directed { graphrs::GraphSpecs::directed_create_missing() } else { graphrs::GraphSpecs::undirected_create_missing() };
+    let mut g = G::new(graphrs::GraphSpecs { multi_edges: multi, self_loops: true, ..base });
+    let fillers: Vec<N> = (0..WIDE_FILLERS).map(|i| &*Box::leak(format!("f{i:03}").into_boxed_str())).collect();
+    let e = |u: N, v: N, w: f64| graphrs::Edge::with_weight(u, v, w);
+    let core = |g: &mut G| {
+        for (u, v, w) in [("c", "a", 1.0), ("a", "a", 2.0), ("a", "b", 1.0), ("b", "a", 2.0), ("b", "b", 1.0), ("b", "c", 2.0)] {
+            let _ = g.add_edge(e(u, v, w));
+        }
+        if multi {
+            let _ = g.add_edge(e("a", "a", 1.0));
+            let _ = g.add_edge(e("a", "b", 2.0));
+        }
+    };
+    if !late {
+        core(&mut g);
+    }
+    for i in 0..WIDE_FILLERS {
+        let _ = g.add_edge(e(fillers[i], fillers[(i + 1) % WIDE_FILLERS], 1.0));
+    }
+    if late {
+        core(&mut g);
+    }
+    let _ = g.add_edge(e("a", fillers[7], 1.0));
+    let _ = g.add_edge(e(fillers[9], "a", 2.0));
+    let _ = g.add_edge(e("c", fillers[11], 1.0));
+    g
+}
+fn wide_stage(rec: &Recorder, c: &mut Counters, only: Option<&str>) {
+    for directed in [true, false] {
+        for multi in [false, true] {
+            for late in [false, true] {
+                let case = format!("wide:{}:{}:{}", directed as u8, multi as u8, late as u8);
+                if only.map_or(false, |o| o != case) {
+                    continue;
+                }
+                c.inc("wide_graphs_checked");
+                let g = wide_graph(directed, multi, late);
+                let q: Vec<N> = vec!["a", "b", "c", ABSENT];
+                let mut fail = |clause: &str, call: &str, detail: String, mut extra: Vec<String>| {
+                    extra.push("wide_graph".into());
+                    rec.record(Violation::new(clause, call, case.clone(), format!("{} {} graph with self-loops: nodes a, b, c (edges c-a, a-a, a-b, b-a, b-b, b-c{}) {} a ring of {WIDE_FILLERS} filler nodes, plus a-f007, f009-a, c-f011\n{detail}", if directed { "directed" } else { "undirected" }, if multi { "multi-edge" } else { "single-edge" }, if multi { ", second a-a and a-b" } else { "" }, if late { "added after" } else { "added before" })).with_tags(extra));
+                };
+                if let Err(pi) = guarded(|| check_queries(&g, &q, &mut fail)) {
+                    rec.record(Violation::new("no_panic", "query", case.clone(), format!("a query panicked: {}", pi.msg)).with_panic(pi));
+                }
+            }
+        }
+    }
+}
+
 pub fn run(tier: &str, rec: &Recorder) -> RunOutput {
     let start = Instant::now();
     let mut out = RunOutput::new("model_checking");
@@ -601,6 +656,13 @@ pub fn run(tier: &str, rec: &Recorder) -> RunOutput {
         fill_e1_coverage(&mut out, &r, &p);
         ex &= !r.capped;
     }
+    {
+        let mut c = Counters::default();
+        wide_stage(rec, &mut c, None);
+        for (k, v) in &c.0 {
+            out.add(k, *v);
+        }
+    }
     out.set("exhaustive", ex);
     out.set("stages", serde_json::Value::Array(notes));
     out.set("traces_validated_against_impl", out.get("states_checked"));
@@ -616,6 +678,11 @@ pub fn run(tier: &str, rec: &Recorder) -> RunOutput {
 }
 
 pub fn replay(case: &str, rec: &Recorder) -> bool {
+    if case.starts_with("wide:") {
+        let mut c = Counters::default();
+        wide_stage(rec, &mut c, Some(case));
+        return rec.has_any();
+    }
     let pc = match parse_case(case) {
         Some(p) => p,
         None => return false,
